@@ -18,7 +18,7 @@ THEOREMS = [L + t for t in (
     "closed_after_unregister", "closed_after_goroutines_exit", "channels_closed_once", "channels_closed_by_owner",
     "stop_terminates", "workers_only_when_registered", "lock_order_acyclic_modulo_feedback",
     "f37_as_is_stuck", "no_stuck_statement_fails_as_is", "f38_failed_connect_as_is_stuck", "f38_stop_as_is_leaves_connection",
-    "f37_stop_as_is_stuck", "f47_once_deadlock_as_is_stuck", "f48_auth_send_as_is_stuck", "f49_as_is_poll_without_queue",
+    "serve_joins_all_goroutines", "f37_stop_as_is_stuck", "f47_once_deadlock_as_is_stuck", "f48_auth_send_as_is_stuck", "f49_as_is_poll_without_queue",
     "lock_feedback_empty", "lock_order_acyclic")]
 COMPS = ["broker"]          # Go side; the Lean side is oracle_lifecycle (LifecycleStream.model)
 NEEDS_FACTS = True
@@ -39,7 +39,7 @@ def _after(rng):
 
 def gen(rng):
     kind = rng.choice(["disc", "disc", "err", "err", "boundary", "failconn", "failconn", "takeover", "stop", "stop",
-                       "stalled", "preclose", "auth"] + (["timeout"] if rng.random() < 0.12 else []))
+                       "stalled", "preclose", "auth", "hold", "hold"] + (["timeout"] if rng.random() < 0.12 else []))
     zl = 0
     ops = [f"new qt={QT} lc=1 ret=0 zl={zl}"]
     v = rng.choice([4, 4, 5, 5, 3])
@@ -106,6 +106,25 @@ def gen(rng):
             ops += ["rawconn a v=5", "burst a CA:ca " + " ".join(["AU:more"] * k + (["AU:done", "PING"] if done else [])), "census", "counts"]
             if rng.random() < 0.5:
                 ops += ["lclose a", "census", "counts"]
+    elif kind == "hold":
+        # a handler held inside a plugin hook (SUBSCRIBE to lc/hold blocks in OnSubscribe until `release`) while the
+        # connection ends or Stop is called: internalClose / Stop's return must wait for the handler
+        v = rng.choice([4, 5])
+        ops.append(f"conn a ca v={v}")
+        if rng.random() < 0.4:
+            ops.append("burst a SUB:2:lc/x")
+        ops.append("burst a SUB:1:lc/hold" + rng.choice(["", " PING", " PING PUB0:lc/x", " DISC"]))
+        ops.append("census")
+        how = rng.choice(["close", "close", "mal", "stop", "stop", "alive"])
+        if how == "stop":
+            ops.append("lstop release=1")
+            tail = False
+        else:
+            if how == "close":
+                ops.append("lclose a")
+            elif how == "mal":
+                ops.append("burst a MAL")
+            ops += ["census", "counts", "lcev", "release", "census", "counts", "lcev"]
     elif kind == "preclose":
         ops += [f"rawconn a v={v}", "lclose a", "census", "counts"]
     elif kind == "stop":
@@ -189,17 +208,46 @@ class Ref:
     them are registered clients"""
     def __init__(self, zl):
         self.zl, self.st, self.cid, self.reader, self.must_close = zl, {}, {}, {}, set()
+        self.held, self.pending, self.subs, self.evs = set(), {}, set(), []
+    def _end(self, n):
+        # a connection whose handler is still inside a hook cannot finish: serve() and the handler stay, the client stays
+        # registered, until the handler returns ("zombie")
+        if n in self.held:
+            self.st[n] = "zombie"
+        else:
+            if self.st[n] == "reg":
+                self.evs.append("closed:" + self.cid[n])
+            self.subs = {x for x in self.subs if x[0] != self.cid.get(n)} if self.st[n] == "reg" else self.subs
+            self.st[n] = "dead"
     def kill(self, n):
         if self.st.get(n) in ("raw", "auth", "reg"):
-            self.st[n] = "dead"
+            self._end(n)
     def server_ends(self, n):
         if self.st.get(n) in ("raw", "auth", "reg"):
-            self.st[n] = "dead"
+            self._end(n)
             if self.reader.get(n):
                 self.must_close.add(n)
+    def release(self):
+        for n in sorted(self.held):
+            self.held.discard(n)
+            self.evs.append("exit:" + self.cid[n])
+            self.subs.add((self.cid[n], "lc/hold"))
+            if self.st[n] == "zombie":
+                self.st[n] = "reg"
+                self._end(n)
+                self.pending.pop(n, None)
+            else:
+                self.feed(n, self.pending.pop(n, []))
     def feed(self, n, toks):
-        for t in toks:
+        for i, t in enumerate(toks):
             s = self.st.get(n)
+            if n in self.held:
+                # the handler is busy: packets queue up behind it; only what readLoop itself refuses ends the connection now
+                if t == "MAL" and s == "reg":
+                    self.server_ends(n)
+                    return
+                self.pending.setdefault(n, []).append(t)
+                continue
             if s not in ("raw", "auth", "reg"):
                 return
             f = t.split(":")
@@ -208,6 +256,7 @@ class Ref:
                     for m, c in list(self.cid.items()):
                         if c == f[1] and m != n and self.st.get(m) == "reg":
                             self.server_ends(m)          # take-over
+                    self.subs = {x for x in self.subs if x[0] != f[1]}     # clean start
                     self.st[n], self.cid[n] = "reg", f[1]
                 elif f[0] == "CA":
                     self.st[n], self.cid[n] = "auth", f[1]
@@ -216,16 +265,35 @@ class Ref:
             elif s == "auth":
                 if f[0] == "AU" and f[1] == "done":
                     self.st[n] = "reg"
+                    self.subs = {x for x in self.subs if x[0] != self.cid[n]}
                 elif f[0] == "AU":
                     pass
                 else:
                     self.server_ends(n)
             elif f[0] in ("DISC", "ERR", "MAL"):
                 self.server_ends(n)
+            elif f[0] == "SUB" and f[2] == "lc/hold":
+                self.held.add(n)
+                self.evs.append("enter:" + self.cid[n])
+            elif f[0] == "SUB":
+                self.subs.add((self.cid[n], f[2]))
     def alive(self):
         return sum(1 for s in self.st.values() if s in ("raw", "auth", "reg"))
     def registered(self):
         return sum(1 for s in self.st.values() if s == "reg")
+    def zombies(self):
+        return sum(1 for s in self.st.values() if s == "zombie")
+
+def ev_order(evs):
+    """the order the property asks for: a handler has left (exit) before its connection is closed (OnClosed), and OnStop
+    comes after every OnClosed and every handler exit"""
+    for i, e in enumerate(evs):
+        k, _, cid = e.partition(":")
+        if k == "closed" and "enter:" + cid in evs and ("exit:" + cid not in evs[:i]):
+            return f"OnClosed for {cid} (unregister, session and subscriptions removed, `closed` closed) ran while its handler was still working"
+        if k == "onstop" and any(x.startswith(("exit:", "closed:")) for x in evs[i + 1:]):
+            return "OnStop ran (Stop returned) before a packet handler / a connection had finished"
+    return None
 
 CENSUS = re.compile(r"serve=(\d+) read=(\d+) write=(\d+) handle=(\d+) poll=(\d+) stuck=(\S+)")
 
@@ -276,27 +344,55 @@ def predicate(ops, out):
             ref.kill(pos[0])
         elif f[0] == "ping":
             ref.feed(pos[0], ["PING"])
+        elif f[0] == "release":
+            ref.release()
+        elif f[0] == "lcev":
+            got = dict(x.split("=", 1) for x in raw.split() if "=" in x)
+            evs = [] if got.get("ev", "-") == "-" else got["ev"].split(",")
+            bad = ev_order(evs)
+            if bad:
+                return f"[join] {bad} — `{op}`: {raw}"
+            if evs != ref.evs:
+                return f"hook events {evs}, expected {ref.evs} — `{op}`"
+            if int(got.get("subs", -1)) != len(ref.subs):
+                return (f"[join] the subscription store holds {got.get('subs')} subscription(s), the sessions that exist hold {len(ref.subs)}: a handler "
+                        f"that outlived its connection wrote into a session that had been removed — `{op}`")
         elif f[0] == "sleep" and int(pos[0]) >= 5000:
             for n, s in list(ref.st.items()):
                 if s in ("raw", "auth"):
                     ref.server_ends(n)                   # CONNECT timeout
         elif f[0] == "counts":
             on = int(dict(x.split("=", 1) for x in raw.split() if "=" in x)["online"])
-            if on != ref.registered():
+            want = ref.registered() + ref.zombies()
+            if on != want:
                 return ("[F37] a client whose connection has ended is still registered in srv.clients — "
-                        f"`{op}`: online={on}, connections still attached: {ref.registered()}" if on > ref.registered() else
-                        f"fewer clients registered than connections attached — `{op}`: online={on}, expected {ref.registered()}")
+                        f"`{op}`: online={on}, connections still attached: {want}" if on > want else
+                        "[join] a client was unregistered (internalClose ran) while a goroutine of its connection was still working — "
+                        f"`{op}`: online={on}, expected {want}" if ref.zombies() else
+                        f"fewer clients registered than connections attached — `{op}`: online={on}, expected {want}")
         elif f[0] == "census":
             if not m:
                 return f"`{op}`: unreadable census `{raw}`"
             sv, rd, wr, hd, pl = (int(m.group(i)) for i in range(1, 6))
-            a, r = ref.alive(), ref.registered()
-            if (sv, rd, hd, pl) != (a, a, r, r) or wr > a:
+            a, r, z = ref.alive(), ref.registered(), ref.zombies()
+            if z and (sv, rd, hd, pl) != (a + z, a, r + z, r):
+                return ("[join] serve() must wait for the packet handler before internalClose: a connection has ended while its handler is "
+                        f"still inside a hook — `{op}`: serve={sv} read={rd} write={wr} handle={hd} poll={pl}, expected serve={a + z} "
+                        f"read={a} handle={r + z} poll={r}")
+            if not z and ((sv, rd, hd, pl) != (a, a, r, r) or wr > a):
                 tag = ("[F38] the server does not close a connection whose CONNECT it refused / that timed out: its goroutines stay"
                        if sv > a and hd == r else "goroutines of a connection that has ended are still there")
                 return (f"{tag} — `{op}`: serve={sv} read={rd} write={wr} handle={hd} poll={pl}, but {a} connection(s) are open and "
                         f"{r} registered")
         elif f[0] == "lstop":
+            if kv.get("release") == "1":
+                got = dict(x.split("=", 1) for x in raw.split() if "=" in x)
+                if got.get("early") != "0":
+                    return (f"[join] Stop returned while a packet handler of a connection was still working (held={got.get('held')}) — "
+                            f"`{op}`: {raw}")
+                bad = ev_order([] if got.get("ev", "-") == "-" else got["ev"].split(","))
+                if bad:
+                    return f"[join] {bad} — `{op}`: {raw}"
             if not raw.startswith("stopped "):
                 return f"{_stuck_msg(raw)} — Stop did not return within its 3 s context ({raw.split()[0]}) after `{op}`"
             if "unload=1 onstop=1" not in raw:
@@ -321,7 +417,7 @@ def nontrivial(ops, out):
                     return True
                 if t.startswith("C:~") or (i == 0 and f[1] != "p" and not t.startswith(("C:", "CA:")) and "rawconn " + f[1] in " ".join(ops)):
                     return True
-        if f[0] in ("par", "sleep") or "noread=1" in o or (f[0] == "lstop" and any(x.startswith("rawconn") for x in ops)):
+        if f[0] in ("par", "sleep", "release") or "release=1" in o or "noread=1" in o or (f[0] == "lstop" and any(x.startswith("rawconn") for x in ops)):
             return True
     return False
 
@@ -445,7 +541,8 @@ def run(r):
 RULE = ("lifecycle scripts on a real in-process broker: a fatal packet (DISCONNECT, handler error, malformed bytes) with 0..12 more "
         "packets behind it in ONE write — the boundary is the 8 slots of client.in —, the peer going away at a packet boundary, refused "
         "CONNECT / first packet not CONNECT / close before CONNECT / CONNECT timeout (5 s, rare), enhanced authentication with 0..12 "
-        "continuation rounds (peer reading or not), take-over with traffic in flight on the "
+        "continuation rounds (peer reading or not), a packet handler held inside a plugin hook while the peer hangs up / readLoop fails / "
+        "Stop is called (hook event order handler-exit < OnClosed < OnStop, subscriptions left in the store), take-over with traffic in flight on the "
         "old connection, take-over of a subscriber that stopped reading with its out queue full, Stop with registered, unregistered and "
         "refused connections and a burst in flight; v3.1 / v3.1.1 / v5. Observed after exact quiescence: closed connections, registered "
         "clients, goroutine census by kind (runtime.Stack), Stop's return, Unload / OnStop counts; compared with the Lean lifecycle model "
